@@ -13,6 +13,8 @@ adjointness of `erode_sub(·,h)`/`dilate_add(·,h)` for the heights of the eleme
 import Mahotas.Proofs.C02Laws
 import Mahotas.Proofs.StarCheck
 import Mahotas.Proofs.C02Families
+import Mahotas.Proofs.C02Signed
+import Mahotas.Proofs.C02Buffer
 open Mahotas Mahotas.C01 Mahotas.C02
 
 /-- **the scalar interface holds for every unsigned dtype** (generic in the range `[0, hi]`,
@@ -403,3 +405,327 @@ example :
   exact C02_cerode_cdilate_bounds_cross_box_disk (dtU 8) (Or.inl ⟨wf_u8, rfl⟩) f g [3, 5]
     (Array.replicate 15 1) (Or.inr (Or.inr ⟨rfl, by decide, by decide⟩)) rfl (by decide)
     (by unfold RangeImg DT.InRange; decide) (by unfold RangeImg DT.InRange; decide) 4
+
+/-! ## Round 4 — signed dtypes (and every integer dtype at once)
+
+For a signed image the smallest value `dt.lo` is negative. It is the absorbing −∞ of `dilate_add`, and an
+entry of the structuring element equal to it means "not in the element"; a **0 entry is a member of height
+0**, so the cross that `get_structuring_elem` builds (entries 0/1 on the `3 × … × 3` box) is not flat: it
+is the full box with height 1 on the ℓ1 ball and height 0 elsewhere. The laws below are proved for the very
+model the driver runs (`erodeImg`/`dilateImg`/`openModel`/… over `erode_sub`/`dilate_add` with
+wrap-around arithmetic), through the interface `ScalarsG dt sup` (`Scalars` without `lo = 0`,
+`Proofs/C02Signed.lean`) and the same universal properties (E)/(D). They need **no hypothesis at the lower
+limit**: `erode_sub` saturates at `lo`, but `lo` is absorbing for `dilate_add`, so the adjunction survives.
+At the upper limit the hypotheses are those of the unsigned theorems (`NoSat` / `HiClear`).
+Images are well formed (`WFImg`: `data.size = shapeSize shape`). -/
+
+/-- **the scalar interface holds for every integer dtype, signed and unsigned** (generic in the range:
+`lo = 0` or `lo = −(hi+1)`, wrap-around arithmetic) and **every** element whose entries are the marker `dt.lo`
+("not in the element") or a height in `[0, hi]` (`AdmissibleEntry`; for a signed dtype the height 0 is a
+member). The four signed dtypes of the driver are instances. -/
+theorem C02_scalars_signed (dt : DT) (wf : dt.WF) (sup : List (List Int × Int))
+    (hsup : ∀ kh ∈ sup, AdmissibleEntry dt kh.2) :
+    ScalarsG dt sup ∧
+    ((dtI 8).WF ∧ (dtI 16).WF ∧ (dtI 32).WF ∧ (dtI 64).WF ∧ (dtI 8).lo = -128 ∧ (dtI 8).hi = 127) ∧
+    (∀ h : Int, AdmissibleEntry dt h ↔ (h = dt.lo ∨ (0 ≤ h ∧ h ≤ dt.hi))) :=
+  ⟨scalars_int dt wf sup hsup, ⟨wf_i8, wf_i16, wf_i32, wf_i64, by decide, by decide⟩, fun _ => Iff.rfl⟩
+
+/-- the interface of rounds 1–2 (bool, unsigned) is an instance of the general one -/
+theorem C02_scalars_general (dt : DT) (sup : List (List Int × Int)) (sc : Scalars dt sup) : ScalarsG dt sup :=
+  sc.toG
+
+/-- **adjunction on signed images** (every integer dtype, **every** element — any shape, even-sided,
+asymmetric, non-flat): `dilate(f) ≤ g ↔ f ≤ erode(g)` provided that for every pixel `i` and entry `(k, h)` the
+pair that meets does not saturate at the top (`g` at the pixel reached `< hi`, or `f i + h ≤ hi`). Nothing is
+required at the lower limit. -/
+theorem C02_adjunction_signed (dt : DT) (sup : List (List Int × Int)) (sc : ScalarsG dt sup) (F G : Img Int)
+    (wfF : WFImg F) (hshape : G.shape = F.shape) (hs : ∀ d ∈ F.shape, 0 < d)
+    (hlen : ∀ kh ∈ sup, kh.1.length = F.shape.length) (hF : RangeImg dt F) (hG : RangeImg dt G)
+    (hns : ∀ i, i < shapeSize F.shape → ∀ kh ∈ sup,
+      NoSat dt (F.data.getD i 0) (G.data.getD (tgt F.shape i kh.1) 0) kh.2) :
+    LeImg (dilateImg dt F sup) G ↔ LeImg F (erodeImg dt G sup) :=
+  adjunctionG dt sup sc F G wfF hshape hs hlen hF hG hns
+
+/-- **opening on signed images is anti-extensive and idempotent** for every element, whenever no pixel of
+`g` sits at the dtype maximum; pixels at the dtype *minimum* are allowed. -/
+theorem C02_open_laws_signed (dt : DT) (sup : List (List Int × Int)) (sc : ScalarsG dt sup)
+    (G : Img Int) (hs : ∀ d ∈ G.shape, 0 < d) (hlen : ∀ kh ∈ sup, kh.1.length = G.shape.length)
+    (hG : RangeImg dt G) (hc : HiClear dt G) :
+    LeImg (openModel dt G sup) G ∧
+    ∀ j, j < shapeSize G.shape →
+      (openModel dt (openModel dt G sup) sup).data.getD j 0 = (openModel dt G sup).data.getD j 0 :=
+  ⟨open_leG dt sup sc G hs hlen hG hc, open_idemG dt sup sc G hs hlen hG hc⟩
+
+/-- **closing on signed images is extensive and idempotent** for every element, whenever the dilation of `f`
+does not reach the dtype maximum (`C02_dilate_below_max_signed` derives that from `f i + h < hi`). -/
+theorem C02_close_laws_signed (dt : DT) (sup : List (List Int × Int)) (sc : ScalarsG dt sup)
+    (F : Img Int) (wfF : WFImg F) (hs : ∀ d ∈ F.shape, 0 < d)
+    (hlen : ∀ kh ∈ sup, kh.1.length = F.shape.length)
+    (hF : RangeImg dt F) (hc : HiClear dt (dilateImg dt F sup)) :
+    LeImg F (closeModel dt F sup) ∧
+    ∀ j, j < shapeSize F.shape →
+      (closeModel dt (closeModel dt F sup) sup).data.getD j 0 = (closeModel dt F sup).data.getD j 0 :=
+  ⟨le_closeG dt sup sc F wfF hs hlen hF (noSat_of_hiClearG dt sup F (dilateImg dt F sup) rfl hs hlen hc),
+   close_idemG dt sup sc F wfF hs hlen hF hc⟩
+
+/-- **opening and closing on signed images are increasing** — no saturation hypothesis at all. -/
+theorem C02_open_close_increasing_signed (dt : DT) (sup : List (List Int × Int)) (sc : ScalarsG dt sup)
+    (F G : Img Int) (wfF : WFImg F) (wfG : WFImg G) (hshape : G.shape = F.shape) (hs : ∀ d ∈ F.shape, 0 < d)
+    (hlen : ∀ kh ∈ sup, kh.1.length = F.shape.length) (hF : RangeImg dt F) (hG : RangeImg dt G)
+    (hle : LeImg F G) :
+    LeImg (openModel dt F sup) (openModel dt G sup) ∧ LeImg (closeModel dt F sup) (closeModel dt G sup) :=
+  ⟨open_monoG dt sup sc F G hshape hs hlen hF hG hle,
+   close_monoG dt sup sc F G wfF wfG hshape hs hlen hF hG hle⟩
+
+/-- **clear of the upper limit ⇒ the dilation stays below the maximum**, every integer dtype: if
+`f i + h < hi` for every pixel and every height `h` of a member, `dilate(f)` never reaches `hi`. -/
+theorem C02_dilate_below_max_signed (dt : DT) (wf : dt.WF) (sup : List (List Int × Int))
+    (hsup : ∀ kh ∈ sup, AdmissibleEntry dt kh.2) (F : Img Int) (wfF : WFImg F)
+    (hs : ∀ d ∈ F.shape, 0 < d) (hF : RangeImg dt F)
+    (hcl : ∀ i, i < shapeSize F.shape → ∀ kh ∈ sup, kh.2 ≠ dt.lo → F.data.getD i 0 + kh.2 < dt.hi) :
+    HiClear dt (dilateImg dt F sup) :=
+  hiClear_dilate_int dt wf sup hsup F wfF hs hF hcl
+
+/-- the centre of an element is a member for every integer dtype as soon as its entry is a height in
+`[0, hi]` other than the marker — for a signed dtype the height 0 qualifies. -/
+theorem C02_centre_member_signed (dt : DT) (wf : dt.WF) (sup : List (List Int × Int))
+    (kh : List Int × Int) (hkh : kh ∈ sup) (hz : C14.isZeroPos kh.1 = true) (h0 : 0 ≤ kh.2)
+    (h1 : kh.2 ≤ dt.hi) (hne : kh.2 ≠ dt.lo) : CentreMember dt sup :=
+  centreMember_int dt wf sup kh hkh hz h0 h1 hne
+
+/-- **conditional operators on signed images**: `g ≤ cerode(f, g) ≤ max(f, g)` and
+`min(f, g) ≤ cdilate(f, g, Bc, n) ≤ g` at every pixel for every `n` (early exit included), saturation at
+either limit included, whenever the centre of the element is a member. -/
+theorem C02_cerode_cdilate_bounds_signed (dt : DT) (sup : List (List Int × Int)) (sc : ScalarsG dt sup)
+    (cm : CentreMember dt sup) (f g : Img Int) (hshape : g.shape = f.shape)
+    (hs : ∀ d ∈ f.shape, 0 < d) (hlen : ∀ kh ∈ sup, kh.1.length = f.shape.length)
+    (hf : RangeImg dt f) (hg : RangeImg dt g) (n : Nat) :
+    ∀ i, i < shapeSize f.shape →
+      (g.data.getD i 0 ≤ (cerodeModel dt f g sup).data.getD i 0 ∧
+       (cerodeModel dt f g sup).data.getD i 0 ≤ max (f.data.getD i 0) (g.data.getD i 0)) ∧
+      (min (f.data.getD i 0) (g.data.getD i 0) ≤ (cdilateModel dt f g sup n).data.getD i 0 ∧
+       (cdilateModel dt f g sup n).data.getD i 0 ≤ g.data.getD i 0) :=
+  fun i hi => ⟨cerode_boundsG dt sup cm f g hshape hs hlen hf hg i hi,
+    cdilate_boundsG dt sup sc cm f g hshape hs hlen hf hg n i hi⟩
+
+/-- **top-hats on signed images**: under the hypotheses of anti-extensivity / extensivity,
+`tophat_open(f) = min(f − open f, hi)` and `tophat_close(f) = min(close f − f, hi)` at every pixel — the
+difference is non-negative but, unlike the unsigned case, it may exceed the dtype maximum (e.g. `100 − (−100)`
+in int8), where `subm` clamps; it is the exact difference wherever that difference is `≤ hi`. -/
+theorem C02_tophats_signed (dt : DT) (wf : dt.WF) (sup : List (List Int × Int)) (sc : ScalarsG dt sup)
+    (f : Img Int) (wff : WFImg f) (hs : ∀ d ∈ f.shape, 0 < d)
+    (hlen : ∀ kh ∈ sup, kh.1.length = f.shape.length)
+    (hf : RangeImg dt f) (hc : HiClear dt f) (hcd : HiClear dt (dilateImg dt f sup)) :
+    ∀ i, i < shapeSize f.shape →
+      ((tophatOpenModel dt f sup).data.getD i 0 =
+          min (f.data.getD i 0 - (openModel dt f sup).data.getD i 0) dt.hi ∧
+       (tophatCloseModel dt f sup).data.getD i 0 =
+          min ((closeModel dt f sup).data.getD i 0 - f.data.getD i 0) dt.hi) ∧
+      (f.data.getD i 0 - (openModel dt f sup).data.getD i 0 ≤ dt.hi →
+        (tophatOpenModel dt f sup).data.getD i 0 = f.data.getD i 0 - (openModel dt f sup).data.getD i 0) ∧
+      ((closeModel dt f sup).data.getD i 0 - f.data.getD i 0 ≤ dt.hi →
+        (tophatCloseModel dt f sup).data.getD i 0 = (closeModel dt f sup).data.getD i 0 - f.data.getD i 0) := by
+  intro i hi
+  have hE := range_erodeG dt sup sc f hs hlen hf
+  have hO : RangeImg dt (openModel dt f sup) := range_dilateG dt sup sc _ (wf_erode dt f sup) hs hE
+  have hD := range_dilateG dt sup sc f wff hs hf
+  have hC : RangeImg dt (closeModel dt f sup) := range_erodeG dt sup sc _ hs hlen hD
+  have h1 := tophatOpen_int dt wf f sup hf hO (open_leG dt sup sc f hs hlen hf hc) i hi
+  have h2 := tophatClose_int dt wf f sup hf hC
+    (le_closeG dt sup sc f wff hs hlen hf (noSat_of_hiClearG dt sup f (dilateImg dt f sup) rfl hs hlen hcd)) i hi
+  refine ⟨⟨h1, h2⟩, fun h => ?_, fun h => ?_⟩
+  · rw [h1]; omega
+  · rw [h2]; omega
+
+/-- **every cross / box / disk on every integer dtype** (`support S bc false`, what the driver builds for a
+non-bool image): all entries are admissible heights 0/1 — so `ScalarsG` holds, for signed dtypes **every cell
+of the box is a member** (height 0 off the footprint: the element is not flat) — and the centre is a member
+for the centred families. -/
+theorem C02_cross_box_disk_signed (dt : DT) (wf : dt.WF) (d : Nat) (S : List Nat) (bc : Array Int)
+    (h : CrossBoxDisk d S bc) :
+    ScalarsG dt (support S bc false) ∧
+    (∀ kh ∈ support S bc false, AdmissibleEntry dt kh.2 ∧ kh.1.length = d) ∧
+    (dt.lo < 0 → ∀ kh ∈ support S bc false, isMember dt kh = true) ∧
+    (CentredCrossBoxDisk d S bc → CentreMember dt (support S bc false)) := by
+  have hr := h.regular
+  have hp := wf.hi_pos
+  have hadm : ∀ kh ∈ support S bc false, AdmissibleEntry dt kh.2 := by
+    intro kh hkh
+    rcases hr.heights false kh hkh with h0 | h1
+    · exact Or.inr (by omega)
+    · exact Or.inr (by omega)
+  refine ⟨scalars_int dt wf _ hadm, fun kh hkh => ⟨hadm kh hkh, hr.len false kh hkh⟩, ?_, ?_⟩
+  · intro hneg kh hkh
+    unfold isMember
+    rw [wf.notBool]
+    rcases hr.heights false kh hkh with h0 | h1 <;> simp <;> omega
+  · intro hc
+    have hmem := ((mem_support_true_iff S bc _).mp hc.centre).1
+    have hlc := wf.lo_cases
+    refine centreMember_int dt wf _ (List.replicate d 0, 1) hmem ?_ (by show (0 : Int) ≤ 1; decide) (by show (1 : Int) ≤ dt.hi; omega)
+      (by show (1 : Int) ≠ dt.lo; omega)
+    show C14.isZeroPos (List.replicate d (0 : Int)) = true
+    induction d with
+    | zero => rfl
+    | succ n ih => simp [List.replicate_succ, C14.isZeroPos]; first | exact ih | skip
+
+/-- **the laws for `Bc = None`/int/box/disk on signed images**, hypotheses about the image only: for every
+integer dtype, every cross/box/disk, every well-formed image of the element's rank with non-empty axes and
+representable values: opening is anti-extensive and idempotent when no pixel is at the maximum; closing is
+extensive and idempotent when `f + 1 < hi` everywhere; both are increasing unconditionally. -/
+theorem C02_open_close_laws_cross_box_disk_signed (dt : DT) (wf : dt.WF) (F : Img Int) (S : List Nat)
+    (bc : Array Int) (hfam : CrossBoxDisk F.shape.length S bc) (wfF : WFImg F) (hs : ∀ d ∈ F.shape, 0 < d)
+    (hF : RangeImg dt F) :
+    let sup := support S bc false
+    (HiClear dt F →
+      LeImg (openModel dt F sup) F ∧
+      ∀ j, j < shapeSize F.shape →
+        (openModel dt (openModel dt F sup) sup).data.getD j 0 = (openModel dt F sup).data.getD j 0) ∧
+    ((∀ i, i < shapeSize F.shape → F.data.getD i 0 + 1 < dt.hi) →
+      LeImg F (closeModel dt F sup) ∧
+      ∀ j, j < shapeSize F.shape →
+        (closeModel dt (closeModel dt F sup) sup).data.getD j 0 = (closeModel dt F sup).data.getD j 0) ∧
+    (∀ G : Img Int, WFImg G → G.shape = F.shape → RangeImg dt G → LeImg F G →
+      LeImg (openModel dt F sup) (openModel dt G sup) ∧ LeImg (closeModel dt F sup) (closeModel dt G sup)) := by
+  obtain ⟨sc, hk, -, -⟩ := C02_cross_box_disk_signed dt wf _ S bc hfam
+  have hlen : ∀ kh ∈ support S bc false, kh.1.length = F.shape.length := fun kh hkh => (hk kh hkh).2
+  have hadm : ∀ kh ∈ support S bc false, AdmissibleEntry dt kh.2 := fun kh hkh => (hk kh hkh).1
+  refine ⟨fun hc => C02_open_laws_signed dt _ sc F hs hlen hF hc, fun hcl => ?_, fun G wfG hshape hG hle =>
+    C02_open_close_increasing_signed dt _ sc F G wfF wfG hshape hs hlen hF hG hle⟩
+  apply C02_close_laws_signed dt _ sc F wfF hs hlen hF
+  apply hiClear_dilate_int dt wf _ hadm F wfF hs hF
+  intro i hi kh hkh _
+  have := hcl i hi
+  rcases hfam.regular.heights false kh hkh with h0 | h1 <;> omega
+
+/-! non-vacuity (signed): an int8 2×3 image with negative values and a pixel at the dtype minimum, the
+    default cross (for int8 the full 3×3 box, height 1 on the cross and 0 at the corners): the laws hold
+    and act non-trivially; the signed cross is *not* the flat cross (the corners take part). -/
+example :
+    let dt := dtI 8
+    let sup := support [3, 3] (crossElem 2 1) false
+    let f : Img Int := { shape := [2, 3], data := #[-5, 9, -128, 7, -7, 100] }
+    (sup.all fun kh => isMember dt kh) = true ∧
+    (erodeImg dt f sup).data.toList = [-7, -128, -128, -8, -128, -128] ∧
+    (dilateImg dt f sup).data.toList = [10, 100, 101, 9, 101, 101] ∧
+    (openModel dt f sup).data.toList = [-6, -6, -128, -6, -7, -128] ∧
+    (closeModel dt f sup).data.toList = [8, 9, 99, 8, 8, 100] ∧
+    (tophatOpenModel dt f sup).data.toList = [1, 15, 0, 13, 0, 127] ∧
+    (tophatCloseModel dt f sup).data.toList = [13, 0, 127, 1, 15, 0] ∧
+    -- the flat cross (corners absent: marker −128) gives another closing
+    (closeModel dt f (support [3, 3] #[-128, 1, -128, 1, 1, 1, -128, 1, -128] false)).data.toList ≠
+      (closeModel dt f sup).data.toList := by
+  decide +kernel
+
+/-- the corollary applies to that image: every hypothesis is discharged by `decide` -/
+example :
+    let f : Img Int := { shape := [2, 3], data := #[-5, 9, -128, 7, -7, 100] }
+    LeImg (openModel (dtI 8) f (support [3, 3] (crossElem 2 1) false)) f ∧
+    LeImg f (closeModel (dtI 8) f (support [3, 3] (crossElem 2 1) false)) := by
+  intro f
+  have h := C02_open_close_laws_cross_box_disk_signed (dtI 8) wf_i8 f [3, 3] (crossElem 2 1)
+    (Or.inl ⟨1, rfl, rfl⟩) rfl (by decide) (by unfold RangeImg DT.InRange; decide)
+  exact ⟨(h.1 (by unfold HiClear; decide)).1, (h.2.1 (by decide)).1⟩
+
+/-! where signed laws genuinely stop (each `decide`d on the model the driver runs):
+    * the top-hat is **not** the exact difference when the difference exceeds the maximum (int8, 1-D box of
+      heights 1: `f − open f = 200` at the first pixel, `subm` clamps to 127);
+    * at the dtype maximum closing is not extensive (as for unsigned dtypes: `dilate_add` saturates at `hi`,
+      `erode_sub` then subtracts from the saturated value: `close [127, 0, 0] = [126, 0, 0]`). -/
+example :
+    let f : Img Int := { shape := [3], data := #[100, -100, -100] }
+    let sup := support [3] #[1, 1, 1] false
+    (openModel (dtI 8) f sup).data.toList = [-100, -100, -100] ∧
+    (tophatOpenModel (dtI 8) f sup).data.toList = [127, 0, 0] := by
+  decide +kernel
+
+example :
+    let f : Img Int := { shape := [3], data := #[127, 0, 0] }
+    let sup := support [3] #[1, 1, 1] false
+    (closeModel (dtI 8) f sup).data.toList = [126, 0, 0] ∧ ¬ LeImg f (closeModel (dtI 8) f sup) := by
+  refine ⟨by decide +kernel, fun h => absurd (h 0 (by decide)) (by decide +kernel)⟩
+
+/-! ## Round 4 — `open` / `close` with `out=`: the buffer programs of `morph.py:393-472`
+
+`openBuf dt A sup out` / `closeBuf dt A sup out` (`Model/C02.lean`) run the source line by line on an explicit
+output buffer: `erode(f, Bc, out=out)` stores into every cell of `out` in scan order; `.copy()`;
+`dilate(copy, Bc, out=eroded)` fills the buffer with the dtype minimum and scatters into it. The driver prints
+them (`openbuf=`/`closebuf=`) next to the pure compositions, and the harness calls the real `open`/`close` with a
+dirty caller buffer. -/
+
+/-- **`open(f, Bc, out=buf)` and `close(f, Bc, out=buf)` compute the pure compositions the laws are about**, for
+every dtype, image, element and **every initial content of the buffer** (of the size of the image — what
+`_get_output` enforces); the intermediate kernels alone also ignore the old contents. -/
+theorem C02_open_close_buffer_program (dt : DT) (A : Img Int) (sup : List (List Int × Int)) (buf : Array Int)
+    (hsz : buf.size = A.size) :
+    openBuf dt A sup buf = (openModel dt A sup).data ∧
+    closeBuf dt A sup buf = (closeModel dt A sup).data ∧
+    erodeInto dt A sup buf = (erodeImg dt A sup).data ∧
+    dilateInto dt A sup buf = (dilateImg dt A sup).data :=
+  ⟨openBuf_eq dt A sup buf hsz, closeBuf_eq dt A sup buf hsz, erodeInto_eq dt A sup buf hsz,
+   dilateInto_eq dt A sup buf hsz⟩
+
+/-- **why the source copies** ("otherwise the image will be modified in place, which can mess up the
+implementation"): `dilate(eroded, Bc, out=eroded)` on one and the same memory first fills it with the dtype
+minimum and then finds every pixel absorbing — the aliased "opening" is the constant `lo` image, for every
+image, element and buffer. -/
+theorem C02_open_aliased_is_constant (dt : DT) (A : Img Int) (sup : List (List Int × Int)) (buf : Array Int)
+    (hsz : buf.size = A.size) :
+    openAliased dt A sup buf = Array.replicate A.size dt.lo := by
+  unfold openAliased
+  rw [dilateInPlace_eq, erodeInto_eq dt A sup buf hsz]
+  congr 1
+  exact size_map_allPos _ _
+
+/-! non-vacuity and the aliasing counterexamples, `decide`d on the definitions the driver runs: a uint8 2×3
+    image, the default cross, a dirty buffer. The buffer program gives the opening/closing; dilating or eroding
+    in place (no copy) gives something else. -/
+example :
+    let dt := dtU 8
+    let sup := support [3, 3] #[0, 1, 0, 1, 1, 1, 0, 1, 0] false
+    let f : Img Int := { shape := [2, 3], data := #[5, 9, 5, 7, 7, 250] }
+    let dirty : Array Int := #[255, 0, 13, 255, 1, 77]
+    (openBuf dt f sup dirty).toList = [5, 7, 5, 7, 7, 7] ∧
+    (openModel dt f sup).data.toList = [5, 7, 5, 7, 7, 7] ∧
+    (openAliased dt f sup dirty).toList = [0, 0, 0, 0, 0, 0] ∧
+    (closeBuf dt f sup dirty).toList = (closeModel dt f sup).data.toList ∧
+    (closeAliased dt f sup dirty).toList ≠ (closeModel dt f sup).data.toList := by
+  decide +kernel
+
+/-! ## Round 4 — `subm(a, b, out=…)` as a buffer program
+
+`morph.subm` is `out = _get_output(a, out)`, `if out is not a: out[:] = a`, `_morph.subm(out, b)`, and the C++ loop
+works in place on its first argument. `submBuf dt a b arg` (`Model/C02.lean`) runs that on explicit buffers for the three
+things `out=` can name; the driver prints it as `prog=` and the harness calls the real `subm` in the same three ways. -/
+
+/-- **`subm` with `out=` is the pure clamped subtraction in every aliasing mode**: in place on `a` (the documented form),
+into a separate buffer with arbitrary old contents, and — since fix e250a86 — in place on `b`; every cell is
+`subm(a[i], b[i]) = clamp(a[i] − b[i])` (`C02_subm_exact`). The loop is aliasing-safe because it reads cell `i` of both
+operands before it writes cell `i`, and the wrapper copies `b` before overwriting it with `a`. Before the fix the `out=b`
+call subtracted the buffer from itself (`submBufUnfixed`: every cell `subm(a[i], a[i])`, i.e. 0 for representable values). -/
+theorem C02_subm_buffer_program (dt : DT) (a b buf : Array Int) (hb : b.size = a.size) (hbuf : buf.size = a.size) :
+    submBuf dt a b .aliasA = submPure dt a b ∧
+    submBuf dt a b (.fresh buf) = submPure dt a b ∧
+    submBuf dt a b .aliasB = submPure dt a b ∧
+    (∀ j, j < a.size → (submPure dt a b).getD j 0 = submElem dt (a.getD j 0) (b.getD j 0)) ∧
+    (∀ j, j < a.size → (submBufUnfixed dt a b .aliasB).getD j 0 = submElem dt (a.getD j 0) (a.getD j 0)) := by
+  refine ⟨submInPlace_eq dt a b, ?_, ?_, fun j hj => submPure_getD dt a b j hj, fun j hj => ?_⟩
+  · show submInPlace dt (copyInto buf a) b = _
+    rw [copyInto_eq buf a hbuf]; exact submInPlace_eq dt a b
+  · show submInPlace dt (copyInto b a) b = _
+    rw [copyInto_eq b a hb]; exact submInPlace_eq dt a b
+  · show (submInPlaceSelf dt (copyInto b a)).getD j 0 = _
+    rw [copyInto_eq b a hb]; exact submInPlaceSelf_getD dt a j hj
+
+/-! non-vacuity, and the two broken orders `decide`d on the definitions the driver runs (uint8):
+    the buffer program in all three modes gives `[0, 4, 100]`; the wrapper before fix e250a86 gave zeros for `out=b`;
+    the seeded "mask after the subtraction" fast path run with `out=a` gives `[255, 4, 100]`. -/
+example :
+    let a : Array Int := #[0, 10, 200]
+    let b : Array Int := #[1, 6, 100]
+    (submBuf (dtU 8) a b .aliasA).toList = [0, 4, 100] ∧
+    (submBuf (dtU 8) a b (.fresh #[255, 7, 13])).toList = [0, 4, 100] ∧
+    (submBuf (dtU 8) a b .aliasB).toList = [0, 4, 100] ∧
+    (submBufUnfixed (dtU 8) a b .aliasB).toList = [0, 0, 0] ∧
+    (submMaskAfter (dtU 8) a b).toList = [255, 4, 100] := by
+  decide +kernel
